@@ -15,12 +15,13 @@ import (
 // them callee first.
 
 type CProg struct {
-	Name  string
-	Src   string            // the Go file
-	Names []string          // functions in source order
-	Terms map[string]string // function -> cfunc term
-	Calls []Call
-	Bad   string // a function goose must reject ("" if none)
+	Stateful bool // terms of Tr/MiniGoS.v instead of Tr/MiniGoC.v
+	Name     string
+	Src      string            // the Go file
+	Names    []string          // functions in source order
+	Terms    map[string]string // function -> cfunc term
+	Calls    []Call
+	Bad      string // a function goose must reject ("" if none)
 }
 
 type cfn struct {
@@ -45,6 +46,19 @@ type cgen struct {
 	fresh   int
 	calls   int               // calls left for this body
 	scopeOf map[string]string // variable -> indentation of the block that declares it (parameters: the body's)
+	st      bool              // MiniGoS: var-declared locals, assignment, op-assignment, ++/--
+	ptr     map[string]bool   // variable -> declared with var (assignable)
+}
+
+// the constructor of the body term in the fragment being generated
+func (g *cgen) ctor(name string) string {
+	if !g.st {
+		return "C" + name
+	}
+	if name == "If" {
+		return "SIfT"
+	}
+	return "S" + name
 }
 
 type cex struct {
@@ -311,12 +325,23 @@ func (g *cgen) gen(t byte, depth int) cex {
 func (g *cgen) body(res byte, depth int, ind string) (string, string) {
 	ret := func() (string, string) {
 		e := g.gen(res, 2)
-		return ind + "return " + e.gosrc + "\n", fmt.Sprintf("(CRet %s)", e.term)
+		return ind + "return " + e.gosrc + "\n", fmt.Sprintf("(%s %s)", g.ctor("Ret"), e.term)
 	}
 	if depth <= 0 {
 		return ret()
 	}
-	switch g.r.Intn(8) {
+	choice := g.r.Intn(8)
+	if g.st {
+		choice = g.r.Intn(15)
+	}
+	switch choice {
+	case 8, 9, 10:
+		return g.varDecl(res, depth, ind)
+	case 11, 12, 13, 14:
+		if s, tm, ok := g.assign(res, depth, ind); ok {
+			return s, tm
+		}
+		return g.varDecl(res, depth, ind)
 	case 0, 1, 2:
 		// x := e; rest
 		t := byte('u')
@@ -351,9 +376,12 @@ func (g *cgen) body(res byte, depth int, ind string) (string, string) {
 		}
 		g.vars = append(inner, cvar{x, t})
 		outerScope, had := g.scopeOf[x]
+		outerPtr := g.ptr[x]
 		g.scopeOf[x] = ind
+		g.ptr[x] = false
 		kgo, kterm := g.body(res, depth-1, ind)
 		g.vars = saved
+		g.ptr[x] = outerPtr
 		if had {
 			g.scopeOf[x] = outerScope
 		} else {
@@ -363,7 +391,7 @@ func (g *cgen) body(res byte, depth int, ind string) (string, string) {
 			// Go refuses an unused variable: leave the declaration out
 			return kgo, kterm
 		}
-		return ind + x + " := " + e.gosrc + "\n" + kgo, fmt.Sprintf("(CLet %q %s %s)", x, e.term, kterm)
+		return ind + x + " := " + e.gosrc + "\n" + kgo, fmt.Sprintf("(%s %q %s %s)", g.ctor("Let"), x, e.term, kterm)
 	case 3, 4:
 		// if c { ... } else { ... }
 		c, ok := g.nonConst('b', 2)
@@ -372,7 +400,7 @@ func (g *cgen) body(res byte, depth int, ind string) (string, string) {
 		}
 		tgo, tterm := g.body(res, depth-1, ind+"\t")
 		egoo, eterm := g.body(res, depth-1, ind+"\t")
-		return ind + "if " + c.gosrc + " {\n" + tgo + ind + "} else {\n" + egoo + ind + "}\n", fmt.Sprintf("(CIf %s %s %s)", c.term, tterm, eterm)
+		return ind + "if " + c.gosrc + " {\n" + tgo + ind + "} else {\n" + egoo + ind + "}\n", fmt.Sprintf("(%s %s %s %s)", g.ctor("If"), c.term, tterm, eterm)
 	case 5, 6:
 		// if c { ...; return e }; rest
 		c, ok := g.nonConst('b', 2)
@@ -381,7 +409,7 @@ func (g *cgen) body(res byte, depth int, ind string) (string, string) {
 		}
 		tgo, tterm := g.body(res, depth-1, ind+"\t")
 		kgo, kterm := g.body(res, depth-1, ind)
-		return ind + "if " + c.gosrc + " {\n" + tgo + ind + "}\n" + kgo, fmt.Sprintf("(CIf %s %s %s)", c.term, tterm, kterm)
+		return ind + "if " + c.gosrc + " {\n" + tgo + ind + "}\n" + kgo, fmt.Sprintf("(%s %s %s %s)", g.ctor("If"), c.term, tterm, kterm)
 	}
 	return ret()
 }
@@ -402,9 +430,9 @@ func tyOf(t byte) *Type {
 
 // GenerateCalls makes one package.  neg: one more function that goose has to
 // reject (a parameter with the name of its function), called by nobody.
-func GenerateCalls(r *rng.R, name string, neg bool) *CProg {
-	p := &CProg{Name: name, Terms: map[string]string{}}
-	g := &cgen{r: r}
+func GenerateCalls(r *rng.R, name string, neg bool, stateful bool) *CProg {
+	p := &CProg{Name: name, Terms: map[string]string{}, Stateful: stateful}
+	g := &cgen{r: r, st: stateful}
 	nf := 2 + r.Intn(4)
 	pnames := []string{"a", "b", "c", "x", "y", "z", "k", "m", "p", "q"}
 	var texts []string
@@ -437,6 +465,7 @@ func GenerateCalls(r *rng.R, name string, neg bool) *CProg {
 		g.vars = append([]cvar{}, f.params...)
 		g.used = map[string]bool{}
 		g.scopeOf = map[string]string{}
+		g.ptr = map[string]bool{}
 		for _, v := range f.params {
 			g.scopeOf[v.name] = "\t"
 		}
@@ -452,23 +481,31 @@ func GenerateCalls(r *rng.R, name string, neg bool) *CProg {
 			g.selfOK = 0
 			g.vars = append(g.vars, cvar{"r", f.res})
 			g.scopeOf["r"] = "\t"
-			kgo, kterm := g.body(f.res, 1+r.Intn(2), "\t")
+			d := 1 + r.Intn(2)
+			if g.st {
+				d = 2 + r.Intn(3)
+			}
+			kgo, kterm := g.body(f.res, d, "\t")
 			if !mentions(kgo, "r") {
 				// the rest does not mention r: it runs under a condition and r is combined afterwards
 				var tailTerm string
 				tail := fgoTail(f.res, &tailTerm, g)
 				if c, ok := g.nonConst('b', 2); ok {
 					kgo = "\tif " + c.gosrc + " {\n" + indent(kgo) + "\t}\n" + tail
-					kterm = fmt.Sprintf("(CIf %s %s %s)", c.term, kterm, tailTerm)
+					kterm = fmt.Sprintf("(%s %s %s %s)", g.ctor("If"), c.term, kterm, tailTerm)
 				} else {
 					kgo, kterm = tail, tailTerm
 				}
 			}
 			fgo, fterm := kgo, kterm
 			bgo = "\tif n == 0 {\n\t\treturn " + base.gosrc + "\n\t}\n\tr := " + rc.gosrc + "\n" + fgo
-			bterm = fmt.Sprintf("(CIf (CBin OEq (CVar \"n\") (CLit 0%%Z)) (CRet %s) (CLet \"r\" %s %s))", base.term, rc.term, fterm)
+			bterm = fmt.Sprintf("(%s (CBin OEq (CVar \"n\") (CLit 0%%Z)) (%s %s) (%s \"r\" %s %s))", g.ctor("If"), g.ctor("Ret"), base.term, g.ctor("Let"), rc.term, fterm)
 		} else {
-			bgo, bterm = g.body(f.res, 1+r.Intn(3), "\t")
+			d := 1 + r.Intn(3)
+			if g.st {
+				d = 2 + r.Intn(4)
+			}
+			bgo, bterm = g.body(f.res, d, "\t")
 		}
 		var ps, pts []string
 		for _, v := range f.params {
@@ -476,7 +513,15 @@ func GenerateCalls(r *rng.R, name string, neg bool) *CProg {
 			pts = append(pts, fmt.Sprintf("%q", v.name))
 		}
 		texts = append(texts, fmt.Sprintf("func %s(%s) %s {\n%s}\n", f.name, strings.Join(ps, ", "), tyGo(f.res), bgo))
-		p.Terms[f.name] = fmt.Sprintf("{| cf_name := %q; cf_params := [%s]; cf_body := %s |}", f.name, strings.Join(pts, "; "), bterm)
+		if g.st {
+			var tps []string
+			for _, v := range f.params {
+				tps = append(tps, fmt.Sprintf("(%q, %s)", v.name, tyCoq(v.t)))
+			}
+			p.Terms[f.name] = fmt.Sprintf("{| sf_name := %q; sf_params := [%s]; sf_body := %s |}", f.name, strings.Join(tps, "; "), bterm)
+		} else {
+			p.Terms[f.name] = fmt.Sprintf("{| cf_name := %q; cf_params := [%s]; cf_body := %s |}", f.name, strings.Join(pts, "; "), bterm)
+		}
 		p.Names = append(p.Names, f.name)
 		g.funcs = append(g.funcs, f)
 		if exported {
@@ -504,7 +549,11 @@ func GenerateCalls(r *rng.R, name string, neg bool) *CProg {
 	if neg {
 		bad := fmt.Sprintf("Bad%d", nf)
 		texts = append(texts, fmt.Sprintf("func %s(%s uint64) uint64 {\n\treturn %s + 1\n}\n", bad, bad, bad))
-		p.Terms[bad] = fmt.Sprintf("{| cf_name := %q; cf_params := [%q]; cf_body := (CRet (CBin OAdd (CVar %q) (CLit 1%%Z))) |}", bad, bad, bad)
+		if g.st {
+			p.Terms[bad] = fmt.Sprintf("{| sf_name := %q; sf_params := [(%q, TU64)]; sf_body := (SRet (CBin OAdd (CVar %q) (CLit 1%%Z))) |}", bad, bad, bad)
+		} else {
+			p.Terms[bad] = fmt.Sprintf("{| cf_name := %q; cf_params := [%q]; cf_body := (CRet (CBin OAdd (CVar %q) (CLit 1%%Z))) |}", bad, bad, bad)
+		}
 		p.Names = append(p.Names, bad)
 		p.Bad = bad
 		p.Calls = append(p.Calls, Call{Fn: bad, Args: []uint64{41}, ArgT: []*Type{TU64}, ResT: []*Type{TU64}})
@@ -547,9 +596,129 @@ func indent(s string) string {
 func fgoTail(res byte, out *string, g *cgen) string {
 	if res == 'u' {
 		e := g.genU(1)
-		*out = fmt.Sprintf("(CRet (CBin OAdd (CVar \"r\") %s))", e.term)
+		*out = fmt.Sprintf("(%s (CBin OAdd (CVar \"r\") %s))", g.ctor("Ret"), e.term)
 		return "\treturn r + " + e.gosrc + "\n"
 	}
-	*out = "(CRet (CNot (CVar \"r\")))"
+	*out = "(" + g.ctor("Ret") + " (CNot (CVar \"r\")))"
 	return "\treturn !r\n"
+}
+
+func tyCoq(t byte) string {
+	if t == 'u' {
+		return "TU64"
+	}
+	return "TBool"
+}
+
+// reads: x occurs somewhere other than as the target of an assignment (Go wants
+// every declared variable read)
+func reads(src, x string) bool {
+	re := regexp.MustCompile(`\b` + x + `\b(\s*(=[^=]|\+=|-=|\|=|&=|\^=|\+\+|--))?`)
+	for _, m := range re.FindAllStringSubmatch(src, -1) {
+		if m[1] == "" {
+			return true
+		}
+	}
+	return false
+}
+
+// var x T [= e]; rest (MiniGoS)
+func (g *cgen) varDecl(res byte, depth int, ind string) (string, string) {
+	t := byte('u')
+	if g.r.Intn(3) == 0 {
+		t = 'b'
+	}
+	g.fresh++
+	x := fmt.Sprintf("%s%d", rng.Pick(g.r, []string{"cell", "sum", "st", "cnt"}), g.fresh)
+	if ind != "\t" && g.r.Intn(4) == 0 {
+		var cands []string
+		for _, v := range g.vars {
+			if v.name != "n" && v.name != "r" && g.scopeOf[v.name] != ind {
+				cands = append(cands, v.name)
+			}
+		}
+		if len(cands) > 0 {
+			x = rng.Pick(g.r, cands)
+		}
+	}
+	decl, init := ind+"var "+x+" "+tyGo(t)+"\n", "None"
+	if g.r.Intn(4) != 0 {
+		e := g.gen(t, 2)
+		decl = ind + "var " + x + " " + tyGo(t) + " = " + e.gosrc + "\n"
+		init = "(Some " + e.term + ")"
+	}
+	saved := g.vars
+	var inner []cvar
+	for _, v := range g.vars {
+		if v.name != x {
+			inner = append(inner, v)
+		}
+	}
+	g.vars = append(inner, cvar{x, t})
+	outerScope, had := g.scopeOf[x]
+	outerPtr := g.ptr[x]
+	g.scopeOf[x] = ind
+	g.ptr[x] = true
+	var kgo, kterm string
+	for tries := 0; tries < 3; tries++ {
+		kgo, kterm = g.body(res, depth-1, ind)
+		if reads(kgo, x) {
+			break
+		}
+	}
+	if !reads(kgo, x) {
+		// a continuation that reads x for sure
+		xe := cex{gosrc: x, term: fmt.Sprintf("(CVar %q)", x)}
+		switch {
+		case t == res:
+			kgo, kterm = ind+"return "+x+"\n", fmt.Sprintf("(SRet %s)", xe.term)
+		case t == 'u':
+			l := g.litU()
+			kgo, kterm = ind+"return "+x+" > "+l.gosrc+"\n", fmt.Sprintf("(SRet (CBin OGt %s %s))", xe.term, l.term)
+		default:
+			a, b := g.genU(1), g.genU(1)
+			kgo = ind + "if " + x + " {\n" + ind + "\treturn " + a.gosrc + "\n" + ind + "}\n" + ind + "return " + b.gosrc + "\n"
+			kterm = fmt.Sprintf("(SIfT %s (SRet %s) (SRet %s))", xe.term, a.term, b.term)
+		}
+	}
+	g.vars = saved
+	g.ptr[x] = outerPtr
+	if had {
+		g.scopeOf[x] = outerScope
+	} else {
+		delete(g.scopeOf, x)
+	}
+	return decl + kgo, fmt.Sprintf("(SVarD %q %s %s %s)", x, tyCoq(t), init, kterm)
+}
+
+// x = e / x op= e / x++ on a var-declared variable in scope; rest (MiniGoS)
+func (g *cgen) assign(res byte, depth int, ind string) (string, string, bool) {
+	var cands []cvar
+	for _, v := range g.vars {
+		if g.ptr[v.name] {
+			cands = append(cands, v)
+		}
+	}
+	if len(cands) == 0 {
+		return "", "", false
+	}
+	v := rng.Pick(g.r, cands)
+	var line, head string
+	switch k := g.r.Intn(5); {
+	case k < 2 || v.t == 'b':
+		e := g.gen(v.t, 2)
+		line = ind + v.name + " = " + e.gosrc + "\n"
+		head = fmt.Sprintf("SAsg %q %s", v.name, e.term)
+	case k < 4:
+		o := rng.Pick(g.r, [][2]string{{"+=", "OAdd"}, {"-=", "OSub"}, {"|=", "OOr"}, {"&=", "OAnd"}, {"^=", "OXor"}})
+		e := g.genU(2)
+		line = ind + v.name + " " + o[0] + " " + e.gosrc + "\n"
+		head = fmt.Sprintf("SOpAsg %s %q %s", o[1], v.name, e.term)
+	default:
+		inc := g.r.Bool()
+		line = ind + v.name + map[bool]string{true: "++", false: "--"}[inc] + "\n"
+		head = fmt.Sprintf("SIncD %t %q", inc, v.name)
+	}
+	kgo, kterm := g.body(res, depth-1, ind)
+	return line + kgo, fmt.Sprintf("(%s %s)", head, kterm), true
 }
